@@ -32,11 +32,12 @@ func removeAll(p string) {
 func main() {
 	r := ev.New("C20", "exploration")
 	r.Rule("cluster id: one execution per (number of contenders 2-3, fault plan over {none, fail-before, lost-ack} for each contender's transactions, release order of the transactions) enumerated depth-first, plus free races of 2-32 contenders on 1-7 clients with random fault plans (distinct = contenders x clients x which client's transaction created the key x failed calls x faults); " +
-		"bootstrap: one fresh real cluster per round, distinct = (members, K, direct/grpc/mixed, malformed requests in the race, resign before the race, resign after, restart) x how the winner arrived; foreign id: distinct = RPC kind x kind of foreign id")
+		"bootstrap: one fresh real cluster per round, distinct = (members, K, direct/grpc/mixed, id mode of the contenders {distinct ids, shared store/region/peer id with different content, mixed, byte-identical copies}, malformed requests in the race, resign before the race, resign after, restart) x how the winner arrived; foreign id: distinct = RPC kind x kind of foreign id")
 	r.Assume("contenders for the cluster id are goroutines calling the hook server.VerifInitOrGetClusterID (= initOrGetClusterID) on instrumented clientv3 clients of one embedded single-node etcd; a contender whose call fails calls again (at most 3 times)")
 	r.Assume("real clusters run in process (lib/srv); handler methods are called on *server.Server and through grpc.Dial + pdpb.NewPDClient against the member's client URL; ground truth comes from a separate un-instrumented clientv3 client of the members' embedded etcd")
 	r.Assume("leader change = Member.ResetLeader on the leader (it campaigns again); restart = Server.Close + CreateServer/Run on the same data dir; LeaderLease is 30 s so that a starved process does not lose its leadership by itself")
 	r.Assume("GetMembers (discovery: how a client learns the cluster id) and the PD-internal RPCs SyncMaxTS / GetDCLocationInfo (documented as validated by validateInternalRequest only) are not judged for the foreign-cluster-id clause")
+	r.Assume("byte-identical Bootstrap requests (a true retry of one request) are not judged for the number of successes (the statement is ambiguous there): counted; the stored state is judged as always. Exactly one success is demanded among requests with pairwise different payloads, including payloads that share store/region/peer id and differ only in content")
 	r.Assume("transactions of a real server's own etcd client are not fault-injected (the client is private to the server); fault injection is done at the hook level (a)")
 	rng := rand.New(rand.NewSource(r.ShardSeed()))
 	srv.Quiet()
@@ -75,6 +76,7 @@ func main() {
 	rounds := r.Pick(20, 16) // thorough: per shard
 	ks := []int{2, 8, 32}
 	vias := []string{"direct", "grpc", "mixed"}
+	idModes := []string{"distinct", "shared", "mixed", "duplicate"}
 	// rounds are independent (own cluster, own PRNG derived from seed and round number); a few run
 	// side by side to keep the wall time down
 	par := r.Pick(3, 2)
@@ -90,7 +92,7 @@ func main() {
 				}
 				g := i + r.Shard*rounds // global round number: shards walk through different plans
 				rrng := rand.New(rand.NewSource(r.Seed*1000003 + int64(g)*7919 + 17))
-				p := roundPlan{Members: 1, K: ks[g%3], Via: vias[(g/3)%3], Malformed: rrng.Intn(4),
+				p := roundPlan{Members: 1, K: ks[g%3], Via: vias[(g/3)%3], IDs: idModes[g%4], Malformed: rrng.Intn(4),
 					PreResign: g%5 == 3, PostResign: g%2 == 0, Restart: g%4 == 1, ForeignKind: g}
 				if r.Thorough() && (g%7)%2 == 1 {
 					p.Members = 3
